@@ -227,19 +227,8 @@ impl MrtInRunner {
                         .with_remote_asn(msg.peer_asn())
                 ;
 
-                let ingress_id = if let Some((id, _info)) =
-                    ingresses.find_existing_peer(&ingress_query)
-                {
-                    id
-                } else {
-                    let new_id = ingresses.register();
-                    ingresses.update_info(
-                        new_id,
-                        ingress_query
-                    );
-                    warn!("no ingress info found, regged {new_id}");
-                    new_id
-                };
+                let ingress_id =
+                    ingresses.find_or_register_peer(ingress_query);
 
                 let provenance = Provenance::for_bgp(
                     ingress_id,
